@@ -324,9 +324,12 @@ def probes(s, limit=40, depth=0):
             out.append(dict((k, _fresh(v[k])) for k in reversed(list(v))))
     for b in _uniq(h["nums"])[:4]:
         out.extend(_num_near(b))
+    extremes = []
     if h["nums"] or any(t in ("integer", "number") for t in h["types"]):
-        # numbers no float can hold, the largest and smallest floats, the first integer floats cannot tell apart
-        out += [10 ** 400, -(10 ** 400), 2 ** 1024, 1e308, 5e-324, 2 ** 53 + 1, float(2 ** 53), -0.0]
+        # numbers no float can hold, the largest and smallest floats, the first integer floats cannot tell apart;
+        # and integral / fractional floats side by side in one array and one object (on top of the budget, see below)
+        extremes = [10 ** 400, -(10 ** 400), 2 ** 1024, 1e308, 5e-324, 2 ** 53 + 1, float(2 ** 53), -0.0,
+                    [1.0, 1.5, 2, 2.0], [1.5, 1.0], {"a": 1.0, "b": 1.5, "c": 2.5, "k": 3.0}]
     for kw in ("multipleOf", "divisibleBy"):
         dv = s.get(kw)
         if isinstance(dv, int) and not isinstance(dv, bool) and dv > 0:
@@ -441,11 +444,11 @@ def probes(s, limit=40, depth=0):
     if isinstance(s.get("enum"), list) and len(s["enum"]) > 8:
         big += [_fresh(e) for e in s["enum"][-3:]] + [19.0, "s7", False, 1]
     out = [x for x in _uniq_typed(out) if _finite(x)]
-    if big:
-        out = out[:max(0, limit - len(big))] + big
     fixed = [f for f in FIXED_PROBES]
     res = out[:limit] + fixed[:max(6, limit - len(out))]
-    return _uniq_typed(res)[:limit + 6]
+    # the large ones come on top of the budget: when they took places in it, small probes that used to expose
+    # seeded changes (an array holding 1.0 and 1.5) were pushed out
+    return _uniq_typed(res)[:limit + 6] + _uniq_typed(extremes + big)
 
 
 def _uniq_typed(seq):
